@@ -82,7 +82,7 @@ def outcome_classes(cfg, eff, recs):
 def trace_for(prop, sd, idx, thorough):
     spec = SPECS[prop]
     rng = random.Random('%s-%d-%d' % (prop, sd, idx))
-    cfg = cg.gen_cfg(rng, spec['focus'], thorough)
+    cfg = avoid_known(cg.gen_cfg(rng, spec['focus'], thorough))
     n = spec['thorough' if thorough else 'quick'][1]
     nops = rng.randint(max(10, n // 3), n)
     ops = cg.gen_ops(rng, cfg, nops, spec['focus'])
@@ -90,10 +90,10 @@ def trace_for(prop, sd, idx, thorough):
 
 
 def avoid_known(cfg):
-    """keep the main stream clear of inputs that are recorded known findings of *other* properties
-    (dir_archive staging leftovers of a failed store, C03): an unpicklable key object cannot be
-    written to a dir archive."""
-    if cfg['backend'] in ('dir', 'direct-dir') and ct.UNENC in cfg['special']:
+    """keep the stream inside the properties' domain: an argument that cannot be pickled (a generator)
+    gives, under the raw/hash keymaps, a key object or value that a pickling backend (file, dir,
+    sqlite) cannot accept; a failed store in such a backend is C03's subject, not the decorators'."""
+    if cfg['backend'] in ('dir', 'direct-dir', 'file', 'direct-file', 'sql') and ct.UNENC in cfg['special']:
         cfg = dict(cfg)
         cfg['special'] = [a for a in cfg['special'] if a != ct.UNENC]
     return cfg
